@@ -74,7 +74,7 @@ func runC05(c *Ctx) *Replay {
 	for i, s := range scheds {
 		x := sc
 		x.Sched = s
-		x.Reader = readerKinds[(i+c.R.Intn(4))%4]
+		x.Reader = readerKinds[(i+c.R.Intn(len(readerKinds)))%len(readerKinds)]
 		x.Decoder = []string{"decode", "make"}[c.R.Intn(2)]
 		viol := execHistory(c.N, &x)
 		c.Count("evaluations", 1)
@@ -165,7 +165,7 @@ func execHistory(n *Node, sc *Scenario) *Violation {
 			return mismatch("history-decode-error|"+kind, fmt.Sprintf("record %d of %d (%s): decoder failed on a healthy stream: %v", i, len(bounds), typ, derr),
 				map[string]string{"record_kind": kind, "reader": sc.Reader})
 		}
-		consumed := link.Pos
+		consumed := link.Pos + link.SeekPast
 		if rw.buffered != nil {
 			consumed -= rw.buffered()
 		}
@@ -287,6 +287,7 @@ func runC06(c *Ctx) *Replay {
 	cfg := val.DefaultCfg()
 	cfg.LongProb = 80
 	cfg.LongLen = 5000
+	cfg.LadderMax = 4097
 	var pk *pick
 	for try := 0; try < 20; try++ {
 		pk = c.pickRecord(cfg)
@@ -311,7 +312,7 @@ func runC06(c *Ctx) *Replay {
 		return nil
 	}
 	c.Count("values", 1)
-	cuts := cutPoints(c.R, len(data), spans, 4096)
+	cuts := cutPoints(c.R, len(data), spans, 1200)
 	chunked := drawSchedule(c.R, len(data), spans)
 	reader := readerKinds[c.R.Intn(len(readerKinds))]
 	errName := []string{"eof", "eof", "unexpected-eof"}[c.R.Intn(3)]
@@ -450,7 +451,7 @@ func runC08(c *Ctx) *Replay {
 		for variant := 0; variant < 2; variant++ {
 			sc := base
 			sc.Kind = "wfault"
-			sc.Writer = []string{"plain", "errorwriter"}[c.R.Intn(2)]
+			sc.Writer = writerKinds[c.R.Intn(len(writerKinds))]
 			sc.WFault = &simnet.WriteFault{Call: k, Err: simnet.ErrorNames[c.R.Intn(len(simnet.ErrorNames))]}
 			if variant == 1 {
 				sc.WFault.Partial = c.R.Intn(8)
